@@ -69,7 +69,8 @@ CLAIMED = {
         'exhaustive enumeration of (model, value property, value) with get-after-set / sibling-frame / re-parse oracles; explicit-state '
         'fixpoint BFS of the cost group and of payee/narration against a record-of-optionals reference model',
         'The two dependent groups are finite state machines once values are drawn from 3-element domains: every transition from '
-        'every reachable state (from every initial concrete form) is executed against the record model.',
+        'every reachable state (from every initial concrete form) is executed against the record model. Thorough: every history of two '
+        'assignments on every class document, deduplicated by canonical state.',
         'Documented dependencies exempt from the sibling clause; comment properties re-read attribution aside.',
         '§4 C09'),
     'C10': (
